@@ -176,7 +176,7 @@ def run(chk):
             ms.append((sc2, sorted(bad, key=lambda x: ("rw=0" in x, x))[:1]))
         shr = C.shrink(os.path.join(work, "shrink"), ms, specs, timeout=(200 if tier == "quick" else 600))
         for (name, sc, bad), m in zip(all_misses, shr):
-            key = C.miss_key(m["key"], bad, specs)
+            key = C.miss_key(m["key"], bad, specs, minimal=m["minimal"])
             ent = minimal_keys.setdefault(key, {"n": 0, "example": C.scen_label(sc), "minimal": m["minimal"], "bad": bad, "program": name})
             ent["n"] += 1
         for key, ent in sorted(minimal_keys.items()):
